@@ -526,7 +526,7 @@ def run_wide(shard, rec, B):
     keys = []
     for w in range(shard["n"]):
         for N in (66, 72, 130):
-            hot = [0, 1, 31, 32, 33, 62, 63, 64, 65, N - 2, N - 1]
+            hot = sorted(set([0, 1, 31, 32, 33, 62, 63, 64, 65, N - 2, N - 1]))
             r = [0, 1, N // 2][int(rng.integers(3))]
             tg, tp, _ = O.random_tableau(rng, N, r=r, nrot=12)
             s = B.State(tg, tp, r)
@@ -553,7 +553,7 @@ def run_wide(shard, rec, B):
                         circ = C.identity_circuit(N)
                         for _ in range(int(rng.integers(2, 7))):
                             G = np.zeros(2 * N, dtype=np.int64)
-                            for q in rng.choice(hot[5:], size=int(rng.integers(1, 4)), replace=False):
+                            for q in rng.choice(hot[4:], size=int(rng.integers(1, 4)), replace=False):
                                 G[2 * q:2 * q + 2] = [(1, 0), (0, 1), (1, 1)][int(rng.integers(3))]
                             circ.take(C.clifford_rotation_gate(B.Pauli(G, 2 * int(rng.integers(2)))))
                         if rng.integers(2):
